@@ -402,9 +402,9 @@ class Emitter(object):
                 sw = 32 if w <= 32 else 64 if w <= 64 else 128
                 e = '((%s)%s >> ((%s) & %d))' % (self.st(sw), self.sx(t, a), b, sw - 1)
             r = self.mask(t, e)
-            # shift amounts >= width give poison in IR; we give 0 (shl/lshr) -- only matters if the result is used
-            if op != 'ashr':
-                r = '((%s) < %d ? %s : (%s)0)' % (b, w, r, self.ct(t))
+            # shift amounts >= width give poison in IR; the expression above masks the amount like x86 does
+            # (a legal refinement of poison), so a guard removed from e.g. `1u << id` shows the aliasing
+            # behaviour of the real build instead of a silent 0
             return '(%s%s)' % (chk, r) if chk else r
         raise Unsupported('binop ' + op)
 
@@ -611,7 +611,16 @@ class Emitter(object):
         for f in defined:
             self.func_cname(f)
         bodies = []
+        stub_pat = self.o.get('stub_funcs')
         for f in defined:
+            if stub_pat and f.name != self.entry and re.search(stub_pat, f.name):
+                # body replaced by a counting no-op stub (listed in the obligation's `stubs`)
+                rt = self.ct(f.ret)
+                body = 'verif_stub_hits++;'
+                if f.ret.k != 'void':
+                    body += ' { %s r; memset(&r, 0, sizeof r); return r; }' % rt
+                bodies.append('static %s\n{\n  %s\n}\n' % (self.proto(f, True), body))
+                continue
             try:
                 bodies.append(FuncEmitter(self, f).emit())
             except Unsupported as ex:
@@ -628,6 +637,8 @@ class Emitter(object):
                 continue
             cn = self.cg(g.name)
             ty = self.ct(g.t)
+            if g.name == 'verif_stub_hits':
+                continue
             if g.external or g.init is None:
                 gl_decl.append('extern %s %s;' % (ty, cn))
             else:
@@ -733,6 +744,7 @@ static inline u64 ir_d2bits(double x) { union { u64 i; double d; } u; u.d = x; r
 static inline float ir_bits2f(u32 x) { union { u32 i; float d; } u; u.i = x; return u.d; }
 static inline u32 ir_f2bits(float x) { union { u32 i; float d; } u; u.d = x; return u.i; }
 static u64 ir_alloc_max; static u64 ir_alloc_sum; static u64 ir_alloc_count;
+u32 verif_stub_hits;
 static u8 *ir_new(u64 n) { u8 *p; ir_alloc_count++; ir_alloc_sum += n; if(n > ir_alloc_max) ir_alloc_max = n; p = (u8 *)malloc(n); IR_ASSUME(p != 0); return p; }
 static void ir_delete(void *p) { free(p); }
 static void ir_throw(void) { IR_ASSERT(0, "C++ exception thrown (__cxa_throw reached)"); IR_ASSUME(0); }
